@@ -2960,6 +2960,10 @@ def check_kind_siblings(ck, rule, prog, file_rx=r".*", floor=0):
                         cc.add(_abs_kind(t.callee.method))
                 elif t.callee.method in ("unwrap_or_default", "unwrap_or", "unwrap_or_else", "map_or", "map_or_else") and "option::Option" in (t.callee.res or t.callee.name or ""):
                     pass  # a default for an ABSENT value (`map.remove(k).unwrap_or_else(new)`) swallows no error; on a Result it does
+                elif t.callee.method == "insert_entry" or (t.callee.method == "insert" and "OccupiedEntry" in (t.callee.name or t.callee.def_args or "")):
+                    # `map.entry(k).insert_entry(v)` / `occupied.insert(v)` REPLACE what is stored under the key; the siblings' `or_insert*` / vacant-only
+                    # inserts keep it
+                    st.add("an overwriting entry store (insert_entry / OccupiedEntry::insert)")
                 elif t.callee.method in sus:
                     # selection by content is one class however it is spelled (filter / filter_map(.. then_some) / find ...)
                     st.add("a selecting adaptor (filter / filter_map / find ..)" if t.callee.method in ("filter", "filter_map", "find", "find_map", "flat_map", "retain", "position") else t.callee.method)
